@@ -365,9 +365,9 @@ fn lengths(cx: &Cx) -> Vec<usize> {
     if cx.thorough {
         (0..=130).collect()
     } else if cx.lite {
-        vec![0, 1, 15, 16, 17, 31, 32, 33, 63, 64, 65, 130]
+        vec![0, 1, 15, 16, 17, 31, 32, 33, 35, 36, 63, 64, 65, 130]
     } else {
-        vec![0, 1, 2, 3, 7, 8, 9, 15, 16, 17, 31, 32, 33, 47, 48, 49, 63, 64, 65, 66, 95, 96, 97, 127, 128, 129, 130]
+        vec![0, 1, 2, 3, 7, 8, 9, 15, 16, 17, 31, 32, 33, 35, 36, 37, 47, 48, 49, 63, 64, 65, 66, 95, 96, 97, 127, 128, 129, 130]
     }
 }
 const CLASSES: [&str; 4] = ["zeros", "ramp", "high", "random"];
